@@ -18,6 +18,9 @@ RULE = (
     "asserts the marker files of its live non-leaf children and writes its own marker. Oracle: multiset of cb_start == reference "
     "live-parent set (vlib/ref_quadtree), log order child cb_end before parent cb_start, no stuck state, no exception, workers "
     "exited before return, serial == parallel. Non-trivial: >=2 live parents and >=1 live non-leaf child relation; distinct by spec."
+    ' Also: sequences of walks in one forked process; pyramid objects that were counted / visited / walked BEFORE subpyramid(); filter '
+    'objects of several callable kinds incl. falsy ones; a quarter of the parallel runs with statement-boundary delays; fresh interpret'
+    'ers with the forkserver / spawn start method and a closure callback.'
 )
 ASSUMPTIONS = [
     "event-log file order respects happens-before (O_APPEND single-write records)",
